@@ -300,6 +300,7 @@ def jobs(tier, seed):
                 out.append({'name': 'cats %s J=%d perm=%s' % (fn, J, ''.join(map(str, perm))), 'kind': 'cats', 'fn': fn, 'J': J, 'perm': list(perm),
                             'cost': 60, 'cmax': 1 if (q and fn in ('spatial_test', 'pseudolikelihood_test')) else 2})
     out.append({'name': 'cells 2x2 N=1', 'kind': 'cells', 'shape': '2x2', 'N': 1, 'cost': 80})
+    out.append({'name': 'cells 2x2 N=1 via from_origins', 'kind': 'cells', 'shape': '2x2', 'N': 1, 'via': 'from_origins', 'cost': 80})
     if not q:
         out.append({'name': 'cells 2x2 N=2', 'kind': 'cells', 'shape': '2x2', 'N': 2, 'cost': 300})
         out.append({'name': 'cells 3x3-hole N=1', 'kind': 'cells', 'shape': '3x3-hole', 'N': 1, 'cost': 200})
@@ -674,7 +675,10 @@ def _replay_cells(cex):
     mags = np.array(MAGS[:nm])
     res = []
     for lat in (latA, latB):
-        reg = C.build_region(regions, models, lat)
+        if cex.get('via') == 'from_origins':
+            reg = regions.CartesianGrid2D.from_origins(np.array([list(o) for o in lat['origins']]), dh=lat['dh'])
+        else:
+            reg = C.build_region(regions, models, lat)
         data = np.array([cex['rates'][str(tuple(cell))] if isinstance(cex['rates'], dict) else None for cell in lat['cells']], dtype=float)
         fo = forecasts.GriddedForecast(data=data, region=reg, magnitudes=mags, name='f')
         ev = [('e%d' % i, 0, la, lo, 10.0, m) for i, (lo, la, m) in enumerate(cex['events'])]
@@ -722,7 +726,12 @@ def _job_cells(job):
     nm = 2
     N = job.get('N', 1)
     mags_edges = MAGS[:nm]
-    regs = [C.build_region(regions, models, lat, np_mod=symnp) for lat in (latA, latB)]
+    # both construction routes: polygons handed to the constructor, and the from_origins classmethod (used by from_dict and by
+    # user code) fed with the origins in the lattice's own order
+    if job.get('via') == 'from_origins':
+        regs = [regions.CartesianGrid2D.from_origins(symnp.asarray(np.array([list(o) for o in lat['origins']])), dh=lat['dh']) for lat in (latA, latB)]
+    else:
+        regs = [C.build_region(regions, models, lat, np_mod=symnp) for lat in (latA, latB)]
     # assume-guarantee: bin1d_vec on symbolic values is replaced by the exact half-open contract that C01 / C02 decide for
     # the real kernel (lower edge inclusive, upper exclusive, open or closed at the top); concrete calls run the real kernel
     real_b1 = regions.bin1d_vec
@@ -790,7 +799,7 @@ def _job_cells(job):
 
     def cexf(mod, P):
         f = lambda t: float(core.real_from_model(mod, t))
-        return {'kind': 'cells', 'shape': job['shape'], 'nm': nm, 'events': [(f(a), f(b), f(c)) for a, b, c in zip(lons, lats, ms)],
+        return {'kind': 'cells', 'shape': job['shape'], 'via': job.get('via'), 'nm': nm, 'events': [(f(a), f(b), f(c)) for a, b, c in zip(lons, lats, ms)],
                 'rates': {str(g): [f(x) for x in r[g]] for g in geo}}
 
     def vio(P):
